@@ -3,6 +3,7 @@
 //!
 //!   qv-harness gen <stream> --seed S --tier quick|thorough --out FILE
 //!   qv-harness answer <stream>            (requests on stdin, answers on stdout; used for replay)
+mod designer;
 mod docgen;
 mod env;
 mod rng;
